@@ -26,6 +26,13 @@ func c13Gen(r *driver.Rand, thorough bool) *driver.Plan {
 		n = r.Intn(60)
 	}
 	p := c13Plan(n, ops, iv, c)
+	if r.Chance(1, 5) {
+		// intervals that are not whole milliseconds (paces stay in ms, so
+		// iv below is only the scale of the idle periods)
+		p.IntervalMs = driver.Pick(r, 0, 1, 7)
+		p.SetX("interval_us", driver.Pick(r, 1, 250, 500, 999))
+		iv = p.IntervalMs + 1
+	}
 	if r.Chance(1, 4) {
 		p.Inputs[0] = genValues(r, n)
 	}
@@ -98,7 +105,7 @@ func c13Final(e *driver.Env) {
 	if e.Viol != nil {
 		return
 	}
-	iv := time.Duration(p.IntervalMs) * time.Millisecond
+	iv := planInterval(p)
 	ops, c := p.N, p.Cap
 	// deliveries before the cancellation
 	var ts []time.Duration
